@@ -49,7 +49,9 @@ impl SupervisionTree {
         crate::verif::point(crate::verif::pt::LINK_BEFORE_LOCK, crate::verif::id_u64(&child.get_id()), crate::verif::id_u64(&supervisor.get_id()));
         let _mutation_guard = TREE_MUTATION_LOCK.lock().unwrap();
 
-        if child.get_status() >= super::actor_cell::ActorStatus::Draining
+        // A draining child is still running (it is working through its mailbox) and keeps its
+        // place in the tree; only a draining, stopping or stopped supervisor refuses new children.
+        if child.get_status() >= super::actor_cell::ActorStatus::Stopping
             || supervisor.get_status() >= super::actor_cell::ActorStatus::Draining
         {
             return false;
